@@ -1,7 +1,7 @@
 (* Election safety (C03/C07), part 2: frame lemmas for the helpers of Node.v.
    rel K0 s s' : s' has the same election core (self, role, term, voted, votes) as s and has
                  emitted no further "loud" output (ResponseVote send or Role _ LEADER);
-   rel KB s s' : if replay_idx <= applied held in s it holds in s' and `others` is unchanged. *)
+   rel KB s s' : `others` is unchanged, and if replay_idx <= applied held in s it holds in s'. *)
 From Coq Require Import ZArith NArith List Bool Lia.
 From RecordUpdate Require Import RecordSet.
 From PSO Require Import Raft.Types Raft.Node Raft.ProofsElectionBase.
@@ -25,7 +25,7 @@ Definition rinv (n : node) : Prop := replay_idx n <= applied n.
 Definition static (c : conf) : Prop := dyn c = false /\ file_dump c = false.
 
 Definition same0 (s s' : S) : Prop := core (nd s') = core (nd s) /\ loud (outs s') = loud (outs s).
-Definition sameB (s s' : S) : Prop := rinv (nd s) -> rinv (nd s') /\ others (nd s') = others (nd s).
+Definition sameB (s s' : S) : Prop := others (nd s') = others (nd s) /\ (rinv (nd s) -> rinv (nd s')).
 
 Inductive kind := K0 | KB.
 Definition rel (k : kind) (s s' : S) : Prop := match k with K0 => same0 s s' | KB => sameB s s' end.
@@ -34,20 +34,20 @@ Lemma loud_app a b : loud (a ++ b) = loud a ++ loud b.
 Proof. unfold loud. apply filter_app. Qed.
 
 Lemma rel_refl k s : rel k s s.
-Proof. destruct k; simpl; [split; reflexivity | intros H; auto]. Qed.
+Proof. destruct k; simpl; split; auto. Qed.
 
 Lemma rel_trans k s a b : rel k s a -> rel k a b -> rel k s b.
 Proof.
   destruct k; simpl.
   - intros [H1 H2] [H3 H4]. split; congruence.
-  - intros H1 H2 R. destruct (H1 R) as [R1 E1]. destruct (H2 R1) as [R2 E2]. split; congruence.
+  - intros [E1 R1] [E2 R2]. split; [congruence | auto].
 Qed.
 
 Lemma rel_eq k s s0 s1 : nd s1 = nd s0 -> outs s1 = outs s0 -> rel k s s0 -> rel k s s1.
 Proof.
   intros En Eo. destruct k; simpl; unfold same0, sameB.
   - intros [H1 H2]. rewrite En, Eo. split; auto.
-  - intros H R. rewrite En. auto.
+  - intros [E R]. rewrite En. split; auto.
 Qed.
 
 Lemma rel_upd k f s s0 : (forall n, big (f n) = big n) -> rel k s s0 -> rel k s (upd f s0).
@@ -59,7 +59,7 @@ Proof.
   - split; [exact Hc | reflexivity].
   - pose proof (f_equal (fun p => fst (fst p)) Ha) as Ho.
     pose proof (f_equal (fun p => snd (fst p)) Ha) as Hap.
-    pose proof (f_equal snd Ha) as Hr. simpl in Ho, Hap, Hr. intros R. split; [|exact Ho].
+    pose proof (f_equal snd Ha) as Hr. simpl in Ho, Hap, Hr. split; [exact Ho|]. intros R.
     unfold rinv in *. change (nd (upd f s0)) with (f (nd s0)). rewrite Hap, Hr. exact R.
 Qed.
 
@@ -69,7 +69,7 @@ Proof.
   destruct k; simpl; unfold same0, sameB.
   - split; [reflexivity|]. change (outs (emit o s0)) with (outs s0 ++ [o]).
     rewrite loud_app. simpl. rewrite Hq. simpl. apply app_nil_r.
-  - intros R. split; [exact R | reflexivity].
+  - split; [reflexivity | intros R; exact R].
 Qed.
 
 Lemma rel_send k d m s s0 : quiet (Send d m) = true -> rel k s s0 -> rel k s (send d m s0).
@@ -92,12 +92,12 @@ Ltac fr1 :=
   first
   [ assumption
   | apply rel_refl
+  | fr_helpers
+  | fr_pair
   | apply rel_upd; [intro; reflexivity|]
   | apply rel_emit; [reflexivity|]
   | apply rel_send; [reflexivity|]
   | apply rel_raise
-  | fr_helpers
-  | fr_pair
   | match goal with
     | |- rel _ _ (if ?b then _ else _) => destruct b eqn:?
     | |- rel _ _ (match ?x with _ => _ end) => destruct x eqn:?
